@@ -42,11 +42,17 @@ W3 == [seq |-> 3, from |-> "u2", to |-> "u1", denom |-> "d2", amt |-> 1]
 WBig == [seq |-> 4, from |-> "u2", to |-> "u1", denom |-> "d1", amt |-> 4]     \* over the 64-bit cap (cap = 3 units; 4 units = 2^64)
 L(b, w) == [b |-> b, seq |-> w.seq, from |-> w.from, to |-> w.to, denom |-> w.denom, amt |-> w.amt]
 
-Trees == [ T1 |-> << L(1, W1) >>,
+WN(i) == [seq |-> i, from |-> "u2", to |-> "u1", denom |-> "d1", amt |-> 1]
+TreeN(n) == [i \in 1..n |-> L(1, WN(i))]
+MaxTreeN == IF Tier = "thorough" THEN 16 ELSE 8
+NName(n) == "N" \o ToString(n)
+BaseTrees == [ T1 |-> << L(1, W1) >>,
            T2 |-> << L(1, W1), L(1, W2) >>,
            T3 |-> << L(1, W2), L(1, W1), L(1, W3) >>,
            T4 |-> << L(2, W1) >>,
            TJ |-> << >> ]          \* junk: a root that commits to nothing known
+Trees == [t \in (DOMAIN BaseTrees) \cup {NName(n) : n \in 1..MaxTreeN} |->
+            IF t \in DOMAIN BaseTrees THEN BaseTrees[t] ELSE TreeN(CHOOSE n \in 1..MaxTreeN : NName(n) = t)]
 Root(v, t, h) == [v |-> v, t |-> t, h |-> h]
 
 (* a claim of withdrawal w against output index out of bridge b, built from  *)
@@ -173,16 +179,32 @@ PermEvents(s) ==
   \cup {[type |-> "ChannelSend", ch |-> c] : c \in Chans}
   \cup {[type |-> "ChannelTake", ch |-> c, who |-> "x"] : c \in Chans}
 
+(* C04: trees of every size x every leaf position, each leaf claimed through the real handler *)
+TreeEvents(s) ==
+  LET escrow == s.bal["esc1"]["d1"] IN
+  Creates(s, {"x"}, {Cfg("p1", "c1", 2, MetaNone)})
+  \cup (IF Has(s.cfg, "1") /\ escrow < MaxTreeN THEN Deposits({"u1"}, {1}, {"u2"}, {"d1"}, {IF MaxTreeN - escrow >= 3 THEN 3 ELSE MaxTreeN - escrow}, {"p0"}) ELSE {})
+  \cup (IF escrow >= MaxTreeN /\ s.nextOut["1"] = 1 THEN Proposes({"p1"}, {1}, {1}, {1}, {Root(0, NName(n), "h1") : n \in 1..MaxTreeN}) ELSE {})
+  \cup (IF s.nextOut["1"] = 2 THEN Advance(s, 4, {4}) ELSE {})
+  \cup (IF s.nextOut["1"] = 2 /\ s.now = 4
+        THEN LET t == s.outs["1"]["1"].root.t  n == Len(Trees[t])
+                 nxt == Cardinality(DOMAIN s.claimed["1"]) + 1 IN
+             {Claim("x", 1, 1, WN(i), 0, t, i, "h1", "none") : i \in {nxt, n} \cap 1..n}
+             \cup {Claim("x", 1, 1, WN(i), 0, t, j, "h1", "none") : i \in {nxt} \cap 1..n, j \in {nxt + 1} \cap 1..n}
+        ELSE {})
+
 Events(s) ==
-  CASE Fam = "oracle" -> OracleEvents(s)
+  CASE Fam = "trees" -> TreeEvents(s)
+    [] Fam = "oracle" -> OracleEvents(s)
     [] Fam = "ledger" -> LedgerEvents(s)
     [] Fam = "claims" -> ClaimEvents(s)
     [] Fam = "auth"   -> AuthEvents(s)
     [] Fam = "perm"   -> PermEvents(s)
 
-MaxB == CASE Fam = "oracle" -> (IF Thorough THEN 2 ELSE 1) [] Fam = "ledger" -> 2 [] Fam = "claims" -> 2 [] Fam = "auth" -> 1 [] Fam = "perm" -> 2
+MaxB == CASE Fam = "trees" -> 1 [] Fam = "oracle" -> (IF Thorough THEN 2 ELSE 1) [] Fam = "ledger" -> 2 [] Fam = "claims" -> 2 [] Fam = "auth" -> 1 [] Fam = "perm" -> 2
 
-S0 == InitState(BKeys, Accts, Denoms, {"u1", "u2"}, 8, "d1", Chans, 3, MaxB, Devs)
+Amt0 == IF Fam = "trees" THEN MaxTreeN ELSE 8
+S0 == InitState(BKeys, Accts, Denoms, {"u1", "u2"}, Amt0, "d1", Chans, 3, MaxB, Devs)
 
 ----------------------------------------------------------------------------
 Init == /\ st = S0
@@ -197,7 +219,7 @@ Spec == Init /\ [][Next]_vars
 
 View == st
 
-ASSUME PrintT("META " \o ToJson([bkeys |-> BKeys, accts |-> Accts, denoms |-> Denoms, funded |-> {"u1", "u2"}, amt0 |-> 8,
+ASSUME PrintT("META " \o ToJson([bkeys |-> BKeys, accts |-> Accts, denoms |-> Denoms, funded |-> {"u1", "u2"}, amt0 |-> Amt0,
                                    chans |-> Chans, devs |-> Devs, maxB |-> MaxB, feeDenom |-> "d1", trees |-> Trees, cap |-> 3]))
 
 (* E2: print every generated transition (ACTION_CONSTRAINT; always TRUE).   *)
